@@ -152,10 +152,10 @@ def run_case(ctx, case):
     bs = gen.base_sampler(dom)
 
     def point():
-        return bs(rng, (n,))
+        return bs(rng, tuple(shape)).reshape(n)
 
     def curve(D, P):
-        return gen.series_data(rng, D, P, (n,), dom, 'random', False, 0.3)
+        return gen.series_data(rng, D, P, tuple(shape), dom, 'random', False, 0.3).reshape(D, P, n)
     xrec = point()
     try:
         m = int(np.prod(np.shape(g(xrec.copy()))))
